@@ -301,3 +301,45 @@ pub fn cmpk_emit(cx: &mut Ctx, a: &[u8], bb: &[u8]) {
         }
     }
 }
+
+/// SortableStrVec::radix_sort on `n` strings that share a prefix of `len` bytes (valid input: every string is far below
+/// the 2^20-byte limit).  The MSD recursion goes one level per common byte with a 257-word count table per frame, so the
+/// case runs in a child process: a stack overflow kills the child, not the harness.
+pub fn radix_deep_case(cx: &mut Ctx, n: usize, len: usize, shape: u64) {
+    let cell = "SortableStrVec";
+    let cj = json!({"cell": "radixdeep", "n": n, "len": len, "shape": shape});
+    cx.sum.eval(cell, &format!("radixdeep {} {} {}", n, len, shape), true);
+    let dir = std::env::temp_dir().join(format!("zv_c20_radix_{}_{}_{}", std::process::id(), n, len));
+    let _ = std::fs::create_dir_all(&dir);
+    let spec = dir.join("spec.json");
+    let _ = std::fs::write(&spec, json!({"case": {"cell": "radixdeep_child", "n": n, "len": len, "shape": shape}}).to_string());
+    let exe = match std::env::current_exe() { Ok(e) => e, Err(_) => return };
+    let st = std::process::Command::new(exe)
+        .args(["C20", "--seed", "1", "--tier", "quick", "--out", dir.to_str().unwrap_or("/tmp"), "--replay", spec.to_str().unwrap_or("")])
+        .stdout(std::process::Stdio::null()).stderr(std::process::Stdio::null()).status();
+    let verdict = std::fs::read_to_string(dir.join("radix_child.txt")).unwrap_or_default();
+    let _ = std::fs::remove_dir_all(&dir);
+    match st {
+        Ok(s) if s.success() && verdict == "ok" => {}
+        Ok(s) if s.success() => cx.sum.fail(cell, None, cj, &format!("radix_sort of {} strings (shape {}, common run {} bytes): {}", n, shape, len, verdict)),
+        Ok(s) => cx.sum.fail(cell, None, cj, &format!("radix_sort of {} strings (shape {}: {}) killed the process ({}): the MSD recursion descends one frame per common byte", n, shape, if shape == 0 { format!("a common prefix of {} bytes", len) } else { "\"a\", \"aa\", \"aaa\", ...".to_string() }, s)),
+        Err(e) => cx.sum.fail(cell, None, cj, &format!("could not run the child: {}", e)),
+    }
+}
+pub fn radix_deep_child(out: &str, n: usize, len: usize, shape: u64) {
+    let prefix = "a".repeat(len);
+    // shape 0: a common prefix and a short distinguishing tail; shape 1: the staircase "a", "aa", ... (two buckets per level), shuffled
+    let strings: Vec<String> = if shape == 0 { (0..n).map(|i| format!("{}{:03}", prefix, (i * 7919) % 1000)).collect() }
+        else { (0..n).map(|i| "a".repeat((i * 7919) % n + 1)).collect() };
+    let verdict = match guarded(|| -> Result<(), String> {
+        let mut v = zipora::SortableStrVec::new();
+        for s in &strings { v.push_str(s).map_err(|e| e.to_string())?; }
+        v.radix_sort().map_err(|e| e.to_string())?;
+        let got: Vec<&str> = (0..v.len()).filter_map(|i| v.get_sorted(i)).collect();
+        let mut want: Vec<&str> = strings.iter().map(|s| s.as_str()).collect();
+        want.sort();
+        if got != want { return Err("sorted enumeration is not the sorted multiset".into()); }
+        Ok(())
+    }) { Ok(Ok(())) => "ok".to_string(), Ok(Err(e)) => format!("error: {}", e), Err(p) => format!("panicked: {}", p) };
+    let _ = std::fs::write(format!("{}/radix_child.txt", out), verdict);
+}
